@@ -373,7 +373,7 @@ func c03Specs(tier string) []*clustermc.Spec {
 	cfs := []cf{{1, 1, 1 << 16, false}, {2, 2, 128, true}, {1, 2, 128, false}}
 	depth, maxN := 6, 3
 	if !quick {
-		depth = 7
+		depth = 8
 		cfs = append(cfs, cf{1, 1, 128, false}, cf{2, 1, 1 << 16, false}, cf{2, 2, 1 << 16, true})
 	}
 	var out []*clustermc.Spec
